@@ -341,6 +341,9 @@ NotSortable(S) == IF \E i \in DOMAIN DupClasses(S) : MixedKinds(DupClasses(S)[i]
 MergeOutcomes(S, rename, rule, multKey) ==
   IF MergeUnspecified(S, rename) \/ MergeUnhashable(S, rule) THEN {} ELSE
   {MergeDuplicateEdges(S, rename, rule, multKey)} \cup NotSortable(S)
+  \* invalid rename / merge_rule: documented as an error; whether it is raised when there is nothing
+  \* to merge is left open (the library used to return silently)
+  \cup (IF rename \notin {"first", "tuple", "new"} \/ rule \notin {"first", "union", "intersection"} THEN {LibErr(S)} ELSE {})
 
 (* ---- components, relabelling, cleanup ----------------------------------------- *)
 RECURSIVE Reach(_, _)
@@ -466,6 +469,9 @@ Outcomes(S, op, ord) ==
 Unspecified(S, op) ==
   \/ op.name = "merge_duplicate_edges" /\ (MergeUnspecified(S, op.s1) \/ MergeUnhashable(S, op.s2))
   \/ op.name = "cleanup" /\ ~op.b3 /\ MergeUnspecified(S, "first")
+  \* attribute entries of the bulk formats that are not dicts (key/value pairs, None): what happens is not
+  \* documented; only the invariants of every reachable state are required afterwards
+  \/ op.name = "add_edges_from" /\ (op.b2 \/ op.b4)
 
 (* ---- action properties (evaluated on spec transitions and on logged steps) ---- *)
 AddOps == {"add_edge", "add_edges_from", "add_weighted_edges_from", "add_node_to_edge", "update"}
